@@ -9,7 +9,7 @@ rm -rf /tmp/effrepo $S
 diag() { # $1 = label
   mkdir -p $S/coq/Gen $S/coq/Model $S/coq/Proofs
   cp /verif/coq/Model/Effects.v $S/coq/Model/
-  cp /verif/coq/Proofs/EffectsVerdict.v $S/coq/Proofs/
+  cp /verif/coq/Proofs/EffectsVerdict.v /verif/coq/Proofs/EffectsProofs.v $S/coq/Proofs/
   $BIN /tmp/effrepo $S >/dev/null || { echo "$1: effgen failed"; return; }
   cat > $S/coq/Diag.v <<'EOF'
 From Coq Require Import String List Bool.
@@ -27,6 +27,7 @@ EOF
     | grep -v '^Lemma' > $S/coq/verdict_defs.v
   ( cd $S/coq && timeout 600 coqc -Q . Verif Model/Effects.v \
     && timeout 600 coqc -Q . Verif Gen/EffectsIR.v \
+    && timeout 600 coqc -Q . Verif Proofs/EffectsProofs.v >/dev/null \
     && echo "== $1" && timeout 600 coqc -Q . Verif Diag.v 2>&1 | tr '\n' ' ' | sed 's/ = /\n = /g; s/  */ /g'; echo
     echo -n "   EffectsVerdict.v: "
     if timeout 600 coqc -Q . Verif Proofs/EffectsVerdict.v >/dev/null 2>$S/err.txt; then echo "COMPILES"; else echo "FAILS: $(grep -m1 -B2 -i 'error' $S/err.txt | head -1)"; fi )
@@ -74,5 +75,28 @@ diag "(iv) mimc7.Hash: package-level scratch.Add(r, arr[i])"
 fresh; mutate /tmp/effrepo/babyjub/eddsa.go '	Sp := utils.BigIntLEBytes(s.S)' '	s.S.Mod(s.S, SubOrder)
 	Sp := utils.BigIntLEBytes(s.S)'
 diag "(v) Signature.Compress: s.S.Mod(s.S, SubOrder)"
+
+# ---- extra mutations (not required by the task; same expectations) ----
+fresh; mutate /tmp/effrepo/babyjub/babyjub.go '	p.X, p.Y = res.X, res.Y
+	return p, nil' '	p.Y = res.Y
+	return p, nil'
+diag "(vi) Point.Decompress: only p.Y stored (stale X)"
+
+fresh; mutate /tmp/effrepo/poseidon/poseidon.go 'func exp5(a *ff.Element) {' 'func exp5(a *ff.Element) {
+	if big5 == nil {
+		big5 = big.NewInt(5)
+	}'
+diag "(vii) poseidon.exp5: lazy initialisation of big5"
+
+fresh; mutate /tmp/effrepo/utils/utils.go '	return (a.Cmp(constants.Q) == -1) && (a.Cmp(constants.Zero) != -1)' '	a.Mod(a, constants.Q)
+	return (a.Cmp(constants.Q) == -1) && (a.Cmp(constants.Zero) != -1)'
+diag "(viii) utils.CheckBigIntInField reduces its argument in place"
+
+fresh; mutate /tmp/effrepo/babyjub/babyjub.go '	y2 := new(big.Int).Mul(p.Y, p.Y)' '	p.Y.Mod(p.Y, constants.Q)
+	y2 := new(big.Int).Mul(p.Y, p.Y)'
+diag "(ix) PointFromSignAndY: p.Y.Mod(...) where p.Y aliases parameter y"
+
+fresh; mutate /tmp/effrepo/mimc7/mimc7.go '		r = new(big.Int).Mod(r, _constants.Q)' '		r = r.Mod(r, _constants.Q)'
+diag "(x) mimc7.Hash: r.Mod(r, Q) in place, r may alias key"
 
 rm -rf /tmp/effrepo $S
